@@ -195,6 +195,14 @@ def load_known(pid: str) -> list[dict]:
 
 
 def main(argv: list[str]) -> int:
+    import tempfile
+
+    with tempfile.TemporaryDirectory(prefix="curies-verif-") as base:
+        os.environ["VERIF_TMP"] = base  # per-process sub-directories are made by common.scratch_dir()
+        return _main(argv)
+
+
+def _main(argv: list[str]) -> int:
     if len(argv) < 2:
         print("usage: run.py <ID> quick|thorough | <ID> --replay <file>", file=sys.stderr)
         return 2
